@@ -3,6 +3,7 @@ import Unimock.Props.C02
 import Unimock.Props.C17
 import Unimock.Lemmas.Typestate
 import Unimock.Lemmas.LeafRace
+import Unimock.Lemmas.TypestateBridge
 /-!
 # C12 — single-use return values are moved out at most once and never duplicated
 
@@ -238,14 +239,14 @@ theorem C12_composite_single_use (v : Output.Val) (k : Output.Kind) (s : Output.
 /-! ## the compile-time half: which builder chains type-check (Model/Typestate) -/
 
 open Typestate in
-theorem run_nonclone (s s' : St) (cs : List Call) (h : run s cs = some s') (i : Nat)
+theorem run_nonclone (s s' : St) (cs : List Call) (h : Typestate.run s cs = some s') (i : Nat)
     (hi : cs[i]? = some (.returns false)) :
     i = 0 ∧ (∃ o, s = .defineResponse o) ∧ (cs[1]? = none ∨ cs[1]? = some .once) := by
   induction cs generalizing s i with
   | nil => simp at hi
   | cons c cs ih =>
     rw [run_cons] at h
-    cases hs : step s c with
+    cases hs : Typestate.step s c with
     | none => simp [hs] at h
     | some s1 =>
       simp only [hs, Option.bind_some] at h
@@ -260,7 +261,7 @@ theorem run_nonclone (s s' : St) (cs : List Call) (h : run s cs = some s') (i : 
         | cons d ds =>
           right
           rw [run_cons] at h
-          cases hd : step s1 d with
+          cases hd : Typestate.step s1 d with
           | none => simp [hd] at h
           | some s2 =>
             subst hs1
@@ -279,7 +280,7 @@ theorem C12_nonclone_quantified_once_only (e : Entry) (cs : List Call) (h : acce
     (hi : cs[i]? = some (.returns false)) :
     i = 0 ∧ (e = .someCall ∨ e = .nextCall) ∧ (cs[1]? = none ∨ cs[1]? = some .once) := by
   unfold accepts at h
-  cases hr : run e.start cs with
+  cases hr : Typestate.run e.start cs with
   | none => simp [hr] at h
   | some s' =>
     obtain ⟨h0, ⟨o, ho⟩, h1⟩ := run_nonclone e.start s' cs hr i hi
@@ -301,24 +302,24 @@ and asks them left to right, stopping at the first empty one. For any number of 
 requesting threads and **any interleaving of their leaf accesses**: -/
 
 open LeafRace in
-theorem reqs_length_step (s : St) (i : Nat) : (step s i).reqs.length = s.reqs.length := by
-  unfold step
+theorem reqs_length_step (s : LeafRace.St) (i : Nat) : (LeafRace.step s i).reqs.length = s.reqs.length := by
+  unfold LeafRace.step
   cases s.reqs[i]? with
   | none => rfl
   | some r => simp only; split <;> (try split) <;> simp
 
 open LeafRace in
-theorem reqs_length_run (s : St) (sch : List Nat) : (run s sch).reqs.length = s.reqs.length := by
+theorem reqs_length_run (s : LeafRace.St) (sch : List Nat) : (LeafRace.run s sch).reqs.length = s.reqs.length := by
   induction sch generalizing s with
   | nil => rfl
-  | cons i is ih => simp only [run]; rw [ih, reqs_length_step]
+  | cons i is ih => simp only [LeafRace.run]; rw [ih, reqs_length_step]
 
 open LeafRace in
 /-- **C12, at most one caller receives a composite single-use value**, under every schedule. -/
 theorem C12_composite_race_at_most_one (n k : Nat) (hn : 0 < n) (sch : List Nat) (i j : Nat) (ri rj : Req)
-    (hi : (run (init n k) sch).reqs[i]? = some ri) (hj : (run (init n k) sch).reqs[j]? = some rj)
+    (hi : (LeafRace.run (LeafRace.init n k) sch).reqs[i]? = some ri) (hj : (LeafRace.run (LeafRace.init n k) sch).reqs[j]? = some rj)
     (hri : ri.received n = true) (hrj : rj.received n = true) : i = j := by
-  obtain ⟨_, k', _, _, hc⟩ := inv_run n (init n k) sch (inv_init n k)
+  obtain ⟨_, k', _, _, hc⟩ := inv_run n (LeafRace.init n k) sch (inv_init n k)
   simp only [Req.received, Bool.and_eq_true, Bool.not_eq_true', decide_eq_true_eq] at hri hrj
   rcases hc with ⟨_, hall⟩ | ⟨_, w, rw_, _, _, _, hothers⟩
   · have := (hall ri (List.mem_of_getElem? hi)).1; omega
@@ -339,15 +340,15 @@ open LeafRace in
     holds the whole value, and every other one failed at the very first leaf without having taken
     anything — no leaf is taken (and dropped) by a caller that does not receive the value. -/
 theorem C12_composite_race_no_loss (n k : Nat) (hn : 0 < n) (hk : 0 < k) (sch : List Nat)
-    (hall : ∀ r : Req, r ∈ (run (init n k) sch).reqs → r.done n = true) :
-    ∃ (w : Nat) (rw_ : Req), (run (init n k) sch).reqs[w]? = some rw_ ∧ rw_.received n = true ∧
-      ∀ (i : Nat) (r : Req), i ≠ w → (run (init n k) sch).reqs[i]? = some r → r.failed = true ∧ r.pos = 0 := by
-  obtain ⟨_, k', _, _, hc⟩ := inv_run n (init n k) sch (inv_init n k)
-  have hlen : (run (init n k) sch).reqs.length = k := by rw [reqs_length_run]; simp [init]
+    (hall : ∀ r : Req, r ∈ (LeafRace.run (LeafRace.init n k) sch).reqs → r.done n = true) :
+    ∃ (w : Nat) (rw_ : Req), (LeafRace.run (LeafRace.init n k) sch).reqs[w]? = some rw_ ∧ rw_.received n = true ∧
+      ∀ (i : Nat) (r : Req), i ≠ w → (LeafRace.run (LeafRace.init n k) sch).reqs[i]? = some r → r.failed = true ∧ r.pos = 0 := by
+  obtain ⟨_, k', _, _, hc⟩ := inv_run n (LeafRace.init n k) sch (inv_init n k)
+  have hlen : (LeafRace.run (LeafRace.init n k) sch).reqs.length = k := by rw [reqs_length_run]; simp [init]
   rcases hc with ⟨_, hzero⟩ | ⟨_, w, rw_, hw, hwpos, hwf, hothers⟩
   · -- nothing taken: then nobody can be done
     exfalso
-    have h0 : 0 < (run (init n k) sch).reqs.length := by omega
+    have h0 : 0 < (LeafRace.run (LeafRace.init n k) sch).reqs.length := by omega
     have hmem := List.getElem_mem h0
     have hd := hall _ hmem
     have hz := hzero _ hmem
@@ -372,6 +373,47 @@ theorem C12_composite_race_no_loss (n k : Nat) (hn : 0 < n) (hk : 0 < k) (sch : 
 
 open LeafRace in
 /-- non-vacuity: three leaves, two requesters, a schedule with two context switches -/
-example : (run (init 3 2) [0, 1, 0, 0]).reqs = [⟨3, false⟩, ⟨0, true⟩] := by decide
+example : (LeafRace.run (init 3 2) [0, 1, 0, 0]).reqs = [⟨3, false⟩, ⟨0, true⟩] := by decide
+
+open Typestate in
+/-- **C12, what the compile-time refusal buys at run time.** In every chain that type-checks, a `returns(v)` of a
+    non-`Clone` value, read as a segment of the value-level builder model, is stored through the single-use path
+    (`into_return_once`): the stored responder is `ret v` with the single-use flag set, and the segment advances the
+    response index by at most one. -/
+theorem C12_nonclone_segment_is_single_use {ρ : Type} (v : ρ) (e : Entry) (cs : List Call) (h : accepts e cs = true)
+    (hnc : cs[0]? = some (.returns false)) (fuel : Nat) (segs : List (Segment ρ))
+    (hs : toSegs v fuel (e == .someCall || e == .nextCall) cs = some segs) :
+    ∃ s rest, segs = s :: rest ∧ s.stored = .ret v true := by
+  obtain ⟨_, he, hnext⟩ := C12_nonclone_quantified_once_only e cs h 0 hnc
+  have hq : (e == .someCall || e == .nextCall) = true := by rcases he with rfl | rfl <;> rfl
+  rw [hq] at hs
+  cases fuel with
+  | zero => simp [toSegs] at hs
+  | succ fuel =>
+    cases cs with
+    | nil => simp at hnc
+    | cons r rest =>
+      simp only [List.getElem?_cons_zero, Option.some.injEq] at hnc
+      subst hnc
+      simp only [toSegs, respOf] at hs
+      cases rest with
+      | nil =>
+        simp at hs; subst hs
+        exact ⟨_, [], rfl, by simp [Segment.stored]⟩
+      | cons q rest' =>
+        simp only [List.getElem?_cons_succ, List.getElem?_cons_zero] at hnext
+        rcases hnext with hn | hn
+        · cases hn
+        · simp only [Option.some.injEq] at hn
+          subst hn
+          simp only [quantOf] at hs
+          cases rest' with
+          | nil =>
+            simp at hs; subst hs
+            exact ⟨_, [], rfl, by simp [Segment.stored]⟩
+          | cons x rest'' =>
+            cases x <;> simp at hs
+            obtain ⟨t, _, rfl⟩ := hs
+            exact ⟨_, t, rfl, by simp [Segment.stored]⟩
 
 end Unimock
